@@ -16,6 +16,7 @@ import (
 	"os"
 	"reflect"
 	"runtime"
+	"sort"
 	"strings"
 	"sync"
 	"sync/atomic"
@@ -30,7 +31,9 @@ type op struct {
 	alt     int        // alternative picked by the scheduler
 	poll    bool       // a select that fell through to default: the thread is spinning
 	idle    bool       // a wait for "enough time has passed": also enabled when nothing else can run
-	obj     uintptr    // identity of the object touched (for the "threads met" statistic)
+	obj     uintptr    // identity of the object touched (for the "threads met" statistic and the clocks)
+	objs    []uintptr  // select: every channel of the statement
+	harness bool       // a harness thread waiting for something it observes from outside
 }
 
 type thread struct {
@@ -40,6 +43,7 @@ type thread struct {
 	op    *op
 	done  bool
 	steps int
+	vc    vclock
 }
 
 // Point is one recorded scheduling decision.
@@ -70,6 +74,7 @@ type Sched struct {
 	touched    map[uintptr]int // object -> first thread id
 	EnvSince   bool            // time.Since answers are environment choices
 	Clock      int64           // extra virtual nanoseconds added by "long" environment answers
+	hb         *hbState
 }
 
 // S is the active scheduler; nil when code runs free.
@@ -103,6 +108,7 @@ func Step() int {
 func (s *Sched) spawn(name string, f func()) *thread {
 	t := &thread{id: len(s.threads), name: name, wake: make(chan struct{}), op: &op{kind: "start", enabled: alwaysEnabled}}
 	s.threads = append(s.threads, t)
+	s.hbSpawn(s.cur, t)
 	go func() {
 		defer func() {
 			if r := recover(); r != nil {
@@ -201,6 +207,7 @@ func (s *Sched) waitYield() *thread {
 func Run(main func(), prefix []int, horizon int, envSince bool, observer func(step int)) *Sched {
 	watchdogOnce.Do(watchdog)
 	s := &Sched{yield: make(chan *thread), prefix: prefix, Horizon: horizon, Observer: observer, touched: map[uintptr]int{}, EnvSince: envSince}
+	s.hbInit()
 	S = s
 	s.spawn("main", main)
 	for {
@@ -281,12 +288,15 @@ func Run(main func(), prefix []int, horizon int, envSince bool, observer func(st
 		}
 		s.cur = t
 		s.lastOp = t.op
+		s.hbSync(t, t.op)
 		s.Steps++
 		t.steps++
 		t.wake <- struct{}{}
 		s.waitYield()
 		if s.Observer != nil {
+			s.hb.quiet = true
 			s.Observer(s.Steps)
+			s.hb.quiet = false
 		}
 	}
 	for _, t := range s.threads {
@@ -365,7 +375,7 @@ func WaitStep(kind string, k int) {
 		return
 	}
 	s := S
-	point(&op{kind: kind, enabled: func() bool { return s.Steps >= k }, idle: true})
+	point(&op{kind: kind, enabled: func() bool { return s.Steps >= k }, idle: true, harness: true})
 }
 
 // WaitUntil parks the calling harness thread until cond holds.
@@ -376,7 +386,7 @@ func WaitUntil(kind string, cond func() bool) {
 		}
 		return
 	}
-	point(&op{kind: kind, enabled: cond})
+	point(&op{kind: kind, enabled: cond, harness: true})
 }
 
 // ---------------------------------------------------------------------------------------------
@@ -483,6 +493,11 @@ func Select(hasDefault bool, cases ...Case) int {
 	o := &op{kind: "select"}
 	if len(cases) > 0 && !cases[0].ch.IsNil() {
 		o.obj = cases[0].ch.Pointer()
+	}
+	for _, c := range cases {
+		if !c.ch.IsNil() {
+			o.objs = append(o.objs, c.ch.Pointer())
+		}
 	}
 	o.enabled = func() bool { return hasDefault || len(ready()) > 0 }
 	o.nalt = func() int {
@@ -594,17 +609,21 @@ type integer interface {
 
 // PlainInc is what a non-atomic x.f++ really is: a load and a store that another thread can
 // come between.
-func PlainInc[T integer](p *T) {
+func PlainInc[T integer](p *T, site ...string) {
 	point(&op{kind: "plain-load", enabled: alwaysEnabled, obj: uintptr(unsafe.Pointer(p))})
+	plainAccess(unsafe.Pointer(p), unsafe.Sizeof(*p), false, site)
 	x := *p
 	point(&op{kind: "plain-store", enabled: alwaysEnabled, obj: uintptr(unsafe.Pointer(p))})
+	plainAccess(unsafe.Pointer(p), unsafe.Sizeof(*p), true, site)
 	*p = x + 1
 }
 
-func PlainDec[T integer](p *T) {
+func PlainDec[T integer](p *T, site ...string) {
 	point(&op{kind: "plain-load", enabled: alwaysEnabled, obj: uintptr(unsafe.Pointer(p))})
+	plainAccess(unsafe.Pointer(p), unsafe.Sizeof(*p), false, site)
 	x := *p
 	point(&op{kind: "plain-store", enabled: alwaysEnabled, obj: uintptr(unsafe.Pointer(p))})
+	plainAccess(unsafe.Pointer(p), unsafe.Sizeof(*p), true, site)
 	*p = x - 1
 }
 
@@ -918,4 +937,95 @@ func After(d time.Duration) <-chan time.Time {
 	ch := make(chan time.Time, 1)
 	AfterFunc(d, func() { ch <- Now() })
 	return ch
+}
+
+// Pool: a deterministic stand-in for sync.Pool (last in, first out; never drops anything, which
+// sync.Pool is allowed to do as well). Put/Get order the clocks like a mutex hand-over.
+type Pool struct {
+	New   func() any
+	real  sync.Pool
+	items []any
+}
+
+func (p *Pool) Get() any {
+	if S == nil {
+		p.real.New = p.New
+		return p.real.Get()
+	}
+	point(&op{kind: "pool-get", enabled: alwaysEnabled, obj: uintptr(unsafe.Pointer(p))})
+	if n := len(p.items); n > 0 {
+		x := p.items[n-1]
+		p.items = p.items[:n-1]
+		return x
+	}
+	if p.New != nil {
+		return p.New()
+	}
+	return nil
+}
+
+func (p *Pool) Put(x any) {
+	if S == nil {
+		p.real.Put(x)
+		return
+	}
+	point(&op{kind: "pool-put", enabled: alwaysEnabled, obj: uintptr(unsafe.Pointer(p))})
+	p.items = append(p.items, x)
+}
+
+// Map: sync.Map as a mutex-protected map (every method is one atomic step).
+type Map struct {
+	mu Mutex
+	m  map[any]any
+}
+
+func (m *Map) Load(k any) (any, bool) {
+	m.mu.Lock()
+	defer m.mu.Unlock()
+	v, ok := m.m[k]
+	return v, ok
+}
+
+func (m *Map) Store(k, v any) {
+	m.mu.Lock()
+	defer m.mu.Unlock()
+	if m.m == nil {
+		m.m = map[any]any{}
+	}
+	m.m[k] = v
+}
+
+func (m *Map) LoadOrStore(k, v any) (any, bool) {
+	m.mu.Lock()
+	defer m.mu.Unlock()
+	if old, ok := m.m[k]; ok {
+		return old, true
+	}
+	if m.m == nil {
+		m.m = map[any]any{}
+	}
+	m.m[k] = v
+	return v, false
+}
+
+func (m *Map) Delete(k any) {
+	m.mu.Lock()
+	defer m.mu.Unlock()
+	delete(m.m, k)
+}
+
+func (m *Map) Range(f func(k, v any) bool) {
+	m.mu.Lock()
+	type kv struct{ k, v any }
+	var all []kv
+	for k, v := range m.m {
+		all = append(all, kv{k, v})
+	}
+	m.mu.Unlock()
+	sort.Slice(all, func(i, j int) bool { return fmt.Sprint(all[i].k) < fmt.Sprint(all[j].k) })
+	for _, e := range all {
+		if !f(e.k, e.v) {
+			return
+		}
+	}
 }
